@@ -25,7 +25,7 @@ import vlib
 
 
 def self_recursive(p):
-    """True if some function literal bound to a name calls that name (tail-call rule may drop frames)."""
+    """True if some function literal bound to a name calls that name in tail position (the tail-call rule may then drop frames)."""
     nodes = p["nodes"]
     for n in nodes:
         if n["t"] == "def" and n.get("isfn"):
@@ -36,7 +36,24 @@ def self_recursive(p):
                 if not k:
                     continue
                 nd = nodes[k - 1]
-                if nd["t"] == "call" and nodes[nd["f"] - 1]["t"] == "id" and nodes[nd["f"] - 1]["name"] == name:
+                # only a self call in tail position re-uses its frame: the returned expression itself, the right operand of || / && that is
+                # the returned expression, or a call used as a statement (it may be the last one)
+                def is_self(j):
+                    c = nodes[j - 1]
+                    return c["t"] == "call" and nodes[c["f"] - 1]["t"] == "id" and nodes[c["f"] - 1]["name"] == name
+
+                def tailpos(j):
+                    if not j:
+                        return False
+                    c = nodes[j - 1]
+                    if is_self(j):
+                        return True
+                    if c["t"] == "bin" and c.get("op") in ("||", "&&"):
+                        return tailpos(c.get("r"))
+                    return False
+                if nd["t"] == "ret" and tailpos(nd.get("e")):
+                    return True
+                if nd["t"] == "expr" and nd.get("e") and is_self(nd["e"]):
                     return True
                 for key, v in nd.items():
                     if key in ("t", "name", "op", "v", "q", "c", "b", "keys", "params", "k", "key", "isfn", "va", "spread", "root"):
